@@ -311,4 +311,94 @@ theorem erase_invariant (d : ReqDesc) :
       (fun k => k.1) d.headerFields d.erase.headerFields hh
   · exact erase_headerNames d.fields
 
+/-! ### The same for response descriptions -/
+
+def RespKind.erase : RespKind → RespKind
+  | .body _ => .body ⟨fun _ => none⟩
+  | .header n o _ => .header n o ⟨fun _ => none⟩
+  | .newtypeBody _ => .newtypeBody ⟨fun _ => none⟩
+  | .rawBody => .rawBody
+  | .flattenBody => .flattenBody
+
+def RespField.erase (f : RespField) : RespField := ⟨f.name, f.kind.erase⟩
+
+def RespDesc.erase (d : RespDesc) : RespDesc :=
+  { d with manualBody := d.manualBody.map (fun _ => ⟨fun _ => none⟩),
+           fields := d.fields.map RespField.erase }
+
+theorem resp_filterMap_erase_length {β γ : Type} (g : RespField → Option β) (g' : RespField → Option γ)
+    (h : ∀ f, (g f).isSome = (g' f.erase).isSome) :
+    ∀ l : List RespField, (l.filterMap g).length = ((l.map RespField.erase).filterMap g').length
+  | [] => rfl
+  | f :: l => by
+    have ih := resp_filterMap_erase_length g g' h l
+    have hf := h f
+    simp only [List.map_cons, List.filterMap_cons]
+    cases hg : g f <;> cases hg' : g' f.erase <;> rw [hg, hg'] at hf <;> simp_all
+
+theorem resp_filter_erase_length (p : RespField → Bool) (h : ∀ f, p f = p f.erase) :
+    ∀ l : List RespField, (l.filter p).length = ((l.map RespField.erase).filter p).length
+  | [] => rfl
+  | f :: l => by
+    have ih := resp_filter_erase_length p h l
+    simp only [List.map_cons, List.filter_cons, ← h f]
+    cases p f <;> simp [ih]
+
+theorem resp_filterMap_erase_eq {β : Type} (g : RespField → Option β) (h : ∀ f, g f = g f.erase)
+    (l : List RespField) : l.filterMap g = (l.map RespField.erase).filterMap g := by
+  rw [List.filterMap_map]
+  congr 1
+  funext f
+  exact h f
+
+theorem resp_erase_headers (l : List RespField) :
+    (l.filterMap RespField.asHeader).map (fun f => (f.header, f.optional))
+      = ((l.map RespField.erase).filterMap RespField.asHeader).map (fun f => (f.header, f.optional)) := by
+  rw [List.map_filterMap, List.map_filterMap]
+  exact resp_filterMap_erase_eq _ (fun f => by cases f with | mk n k => cases k <;> rfl) l
+
+theorem resp_erase_headerNames (l : List RespField) :
+    (l.filterMap RespField.asHeader).map (·.header)
+      = ((l.map RespField.erase).filterMap RespField.asHeader).map (·.header) := by
+  rw [List.map_filterMap, List.map_filterMap]
+  exact resp_filterMap_erase_eq _ (fun f => by cases f with | mk n k => cases k <;> rfl) l
+
+/-- The predicates decided for the response descriptions of the real endpoints are functions of
+the erased description. -/
+theorem resp_erase_invariant (d : RespDesc) :
+    d.macroAccepts = d.erase.macroAccepts ∧ d.supported = d.erase.supported
+    ∧ d.inModel = d.erase.inModel ∧ d.g17Fields = d.erase.g17Fields
+    ∧ d.headerFields.map (·.header) = d.erase.headerFields.map (·.header)
+    ∧ d.status = d.erase.status := by
+  have h1 : d.newtypeFields.length = d.erase.newtypeFields.length :=
+    resp_filterMap_erase_length _ _ (fun f => by cases f with | mk n k => cases k <;> rfl) d.fields
+  have h2 : d.bodyFields.length = d.erase.bodyFields.length :=
+    resp_filterMap_erase_length _ _ (fun f => by cases f with | mk n k => cases k <;> rfl) d.fields
+  have h5 : d.rawFields.length = d.erase.rawFields.length :=
+    resp_filter_erase_length _ (fun f => by cases f with | mk n k => cases k <;> rfl) d.fields
+  have h6 : d.flattenFields.length = d.erase.flattenFields.length :=
+    resp_filter_erase_length _ (fun f => by cases f with | mk n k => cases k <;> rfl) d.fields
+  have e2 := isEmpty_of_length_eq h2
+  have e6 := isEmpty_of_length_eq h6
+  have hh := resp_erase_headers d.fields
+  refine ⟨?_, ?_, ?_, ?_, resp_erase_headerNames d.fields, rfl⟩
+  · unfold RespDesc.macroAccepts RespDesc.hasFlatten
+    rw [h1, h5, h6, e2, e6]
+  · unfold RespDesc.supported
+    rw [e2]
+    have hn : d.fields.map (·.name) = d.erase.fields.map (·.name) := by
+      show _ = (d.fields.map RespField.erase).map (·.name)
+      simp [RespField.erase]
+    have hm : d.manualBody.isNone = d.erase.manualBody.isNone := by
+      show _ = (d.manualBody.map _).isNone
+      cases d.manualBody <;> rfl
+    rw [hn, hm]
+  · unfold RespDesc.inModel RespDesc.hasFlatten
+    rw [e6]
+  · unfold RespDesc.g17Fields
+    exact map_filter_of_map_eq (fun f : HeaderField => (f.header, f.optional))
+      (fun f : HeaderField => (f.header, f.optional))
+      (fun k => k.2 && decide (k.1 = contentType)) (fun k => k.1)
+      d.headerFields d.erase.headerFields hh
+
 end Ruma.Glue
